@@ -259,7 +259,7 @@ def run(prop_id, tier, seed, replay=None):
         rep.sample({"pid": ev["pid"], "n": ev["n"], "cells": ev["cells"][:4], "det": ev["det"]})
     rep.rule = ("N keys per (program, argument sample) simulated in one jitted vmap; evaluations = simulated traces; "
                 "non-trivial = distinct observed (program, args, complete assignment) cells")
-    rep.extra.update({"hoeffding_bound_counts": bound, "N": n, "delta_total": DELTA, "programs": PROGS})
+    rep.extra.update({"hoeffding_bound_counts": bound, "N": n, "delta_total": DELTA, "program_ids": PROGS + RESAMPLE, "programs": len(PROGS + RESAMPLE)})
     rep.assumptions = ["dyadic categorical tables LTab identical in spec/GFIBase.tla and harness/gfi_build.py",
                        "Hoeffding bound with union over all cells of all programs: false-alarm probability <= 1e-12 per run"]
     return rep.finish()
